@@ -1,2 +1,57 @@
-(* placeholder: theorems are added below as they are proved *)
-From QV Require Import Base Fields SrcFacts Msg SrcDecisions Cache CacheSpec.
+(* Properties_C06.v — cache replacement, cache-flush and goodbye semantics (statements only). *)
+From QV Require Import Base Fields SrcFacts Msg SrcDecisions Cache CacheSpec CacheProofs.
+Local Open Scope Z_scope.
+
+(* the match condition read from cache.cpp is the property's rule: identical name, type and data,
+   or - for a cache-flush record - same name and type *)
+Theorem C06_match_rule new old : cache_match new old = spec_match new old.
+Proof. exact (cache_match_spec new old). Qed.
+Print Assumptions C06_match_rule.
+
+(* what an addition does to the stored entries: exactly the matching entries disappear, every other
+   entry stays, untouched and in order; the new record is appended iff its TTL is nonzero *)
+Theorem C06_add_shape now j r c :
+  c_entries (fst (add now j r c))
+  = filter (fun e => negb (spec_match r (e_rec e))) (c_entries c)
+    ++ (if (r_ttl r =? 0)%N then [] else [mkEntry r (triggers now j (r_ttl r))]).
+Proof. exact (add_entries now j r c). Qed.
+Print Assumptions C06_add_shape.
+
+(* a goodbye announces exactly what it removes, in order; any other addition announces nothing *)
+Theorem C06_add_signals now j r c :
+  map fst (snd (add now j r c))
+  = if (r_ttl r =? 0)%N then map (fun e => Expired (e_rec e)) (filter (fun e => spec_match r (e_rec e)) (c_entries c)) else [].
+Proof. exact (add_signals now j r c). Qed.
+Print Assumptions C06_add_signals.
+
+(* every cache reachable by additions and timer firings at arbitrary instants (early or late):
+   no two stored records with identical name, type and data; no stored record with TTL 0 *)
+Theorem C06_no_duplicates c : creach c -> nodup_rec (map e_rec (c_entries c)).
+Proof. intro H. exact (proj2 (creach_EInv c H)). Qed.
+Print Assumptions C06_no_duplicates.
+
+Theorem C06_goodbye_never_returned c name type r : creach c -> In r (lookup name type c) -> r_ttl r <> 0%N.
+Proof.
+  intros H Hr. destruct (lookup_In name type c r Hr) as [e [He <-]]. exact (proj1 (creach_EInv c H) e He).
+Qed.
+Print Assumptions C06_goodbye_never_returned.
+
+(* after a goodbye nothing that it matches is left - with the flush bit, no record of that name and type *)
+Theorem C06_goodbye_removes_all now j r c e :
+  r_ttl r = 0%N -> In e (c_entries (fst (add now j r c))) -> spec_match r (e_rec e) = false /\ In e (c_entries c).
+Proof.
+  intros H0 He. rewrite add_entries in He. unfold new_entry in He. rewrite H0 in He. cbn [N.eqb] in He.
+  rewrite app_nil_r in He. apply filter_In in He as [He Hm]. unfold matches in Hm.
+  apply negb_true_iff in Hm. auto.
+Qed.
+Print Assumptions C06_goodbye_removes_all.
+
+(* non-vacuity: a reachable cache with two records of one name and type, flushed by a goodbye *)
+Example C06_example :
+  let a := set_addr (A4 1) (set_type 1 (set_name (Some [97; 46]%N) default_record)) in
+  let b := set_addr (A4 2) a in
+  let bye := set_flush true (set_ttl 0 (set_addr (A4 3) a)) in
+  let c := fst (add 5 0 b (fst (add 0 7 a empty_cache))) in
+  length (c_entries c) = 2%nat /\ c_entries (fst (add 9 0 bye c)) = [] /\
+  map fst (snd (add 9 0 bye c)) = [Expired a; Expired b].
+Proof. vm_compute. auto. Qed.
